@@ -1503,3 +1503,71 @@ Proof.
   unfold extended_copy_x, extended_copy. destruct (resolve src_ref) as [n|]; [|split; reflexivity].
   destruct roots_ok, copy_ok, tag_ok; simpl; repeat split; auto; discriminate.
 Qed.
+
+(* ------------------------------------------------------------------ failing operations, any
+   error-aware FindPredecessors that refines a fault-free one *)
+Lemma dfs_ef_ok fuel fpe fp limit :
+  (forall x k ps k', fpe x k = Some (ps, k') -> ps = fp x) ->
+  forall st V R k roots,
+  dfs_ef fuel fpe limit st V R k = ROk roots -> dfs fuel fp limit st V R = Some roots.
+Proof.
+  intro Href. induction fuel as [|fuel IH]; intros st V R k roots H; cbn [dfs_ef dfs] in *; [discriminate|].
+  destruct st as [|[cur d] rest]; [now injection H as <-|].
+  destruct (mem (d_id cur) V); [eapply IH; eauto|].
+  destruct ((0 <? limit)%Z && (Z.of_nat d =? limit)%Z)%bool; [eapply IH; eauto|].
+  destruct (fpe (d_id cur) k) as [[ps k']|] eqn:E; [|discriminate].
+  apply Href in E. rewrite <- E. destruct ps as [|p0 ps]; eapply IH; eauto.
+Qed.
+
+(* fuel exhaustion of the error-aware loop implies fuel exhaustion of the plain loop: with the
+   runner's fuel the outcome is always a root set or an error *)
+Lemma dfs_ef_fuel fuel fpe fp limit :
+  (forall x k ps k', fpe x k = Some (ps, k') -> ps = fp x) ->
+  forall st V R k,
+  dfs_ef fuel fpe limit st V R k = RFuel -> dfs fuel fp limit st V R = None.
+Proof.
+  intro Href. induction fuel as [|fuel IH]; intros st V R k H; cbn [dfs_ef dfs] in *; [reflexivity|].
+  destruct st as [|[cur d] rest]; [discriminate|].
+  destruct (mem (d_id cur) V); [eapply IH; eauto|].
+  destruct ((0 <? limit)%Z && (Z.of_nat d =? limit)%Z)%bool; [eapply IH; eauto|].
+  destruct (fpe (d_id cur) k) as [[ps k']|] eqn:E; [|discriminate].
+  apply Href in E. rewrite <- E. destruct ps as [|p0 ps]; eapply IH; eauto.
+Qed.
+
+Lemma dfs_e_is_ef fuel s fs limit : forall st V R k,
+  dfs_e fuel s fs limit st V R k = dfs_ef fuel (find_preds_e s fs) limit st V R k.
+Proof.
+  induction fuel as [|fuel IH]; intros st V R k; cbn [dfs_e dfs_ef]; [reflexivity|].
+  destruct st as [|[cur d] rest]; [reflexivity|].
+  destruct (mem (d_id cur) V); [apply IH|].
+  destruct ((0 <? limit)%Z && (Z.of_nat d =? limit)%Z)%bool; [apply IH|].
+  destruct (find_preds_e s fs (d_id cur) k) as [[[|p0 ps] k']|]; auto.
+Qed.
+
+Lemma find_preds_custom_e_ok s custom fs x k ps k' :
+  find_preds_custom_e s custom fs x k = Some (ps, k') -> ps = find_preds_custom s custom fs x.
+Proof.
+  unfold find_preds_custom_e, find_preds_custom. destruct (tick k) as [k1|]; [|discriminate].
+  destruct (fold_left (step_e s) fs (Some (false, custom x, k1))) as [[[b0 ps1] k2]|] eqn:E; [|discriminate].
+  intro H. injection H as <- _. apply fold_step_e_ok in E. now rewrite E.
+Qed.
+
+(* success below a caller-supplied FindPredecessors = the fault-free result *)
+Lemma find_roots_custom_e_success fuel s custom fs limit node k roots :
+  find_roots_custom_e fuel s custom fs limit node k = ROk roots ->
+  find_roots_fp fuel (find_preds_custom s custom fs) limit node = Some roots.
+Proof.
+  unfold find_roots_custom_e, find_roots_fp. apply dfs_ef_ok.
+  intros x k0 ps k'. apply find_preds_custom_e_ok.
+Qed.
+
+(* totality with the runner's fuel: a root set or an error, never fuel exhaustion *)
+Lemma find_roots_e_total s fs limit node n k :
+  (forall x p, x < n -> In p (s_preds s x) -> d_id p < n) -> d_id node < n ->
+  find_roots_e (fuel_for s n) s fs limit node k <> RFuel.
+Proof.
+  intros Hc Hn H. unfold find_roots_e in H. rewrite dfs_e_is_ef in H.
+  apply (dfs_ef_fuel _ _ (find_preds s fs)) in H; [|intros x k0 ps k'; apply find_preds_e_ok].
+  destruct (find_roots_terminates s fs limit node n Hc Hn) as (roots & Hr).
+  unfold find_roots, find_roots_fp in Hr. congruence.
+Qed.
